@@ -344,6 +344,93 @@ def asClosestCanonical (A : Aff Int) (shape : List Nat) (d : DimInfo) (R : List 
   | .error e => .error e
   | .ok r => if enforceDiag && !affIsDiag r.affine then .error .orientation else .ok (o, r)
 
+/-! ### image state: the data object versus the `get_fdata` cache
+
+  nibabel/dataobj_images.py:226-417 (`get_fdata`, `uncache`) and the three operations of this
+  property, which all take the voxels from `self.dataobj` (spatialimages.py `__getitem__`:
+  `self.img.dataobj[slicer]`; `as_reoriented`: `np.asanyarray(self.dataobj)`), never from
+  `self._fdata_cache`.
+
+  Values are *element numbers of the data object as the image was created/loaded* (C order): the
+  data object of a fresh image is `range n`.  A caller can change the data object only through an
+  array that IS the data object: `np.asanyarray(self._dataobj, dtype=dt)` returns the array itself
+  exactly when the image is an array image whose array already has the (native) floating dtype
+  `dt`; a proxy always reads a fresh array from the file.  The only in-place edit modelled is the
+  C-order reversal of the returned array (`a[...] = a.ravel()[::-1].reshape(a.shape)`), which keeps
+  every value identifiable.  External (not modelled): the numerical rounding of a cast to `dt` — a
+  cache entry `k` stands for "element `k` rendered in dtype `dt`". -/
+
+/-- floating dtypes `get_fdata(dtype=...)` is called with -/
+inductive FD where
+  | f2 | f4 | f8
+  deriving Repr, DecidableEq, Inhabited
+
+/-- `self._fdata_cache`: its dtype, which data element each entry renders, and whether the cached
+    array is the data object itself -/
+structure FCache where
+  dt    : FD
+  vals  : List Nat
+  alias : Bool
+  deriving Repr, DecidableEq
+
+structure ImgSt where
+  proxy : Bool               -- `is_proxy(self._dataobj)`
+  arrFD : Option FD          -- array images: the floating dtype of the array, if it has a native one
+  data  : List Nat           -- contents of the data object (what `np.asanyarray(img.dataobj)` gives)
+  cache : Option FCache
+  deriving Repr, DecidableEq
+
+/-- the calls a user makes on an image before the operation under test -/
+inductive HStep where
+  | getFdata (dt : FD) (fill edit : Bool)   -- `a = img.get_fdata(dtype=dt, caching='fill'|'unchanged')`, then optionally reverse `a` in place
+  | uncache                                  -- `img.uncache()`
+  deriving Repr, DecidableEq
+
+def ImgSt.init (proxy : Bool) (arrFD : Option FD) (n : Nat) : ImgSt := ⟨proxy, arrFD, List.range n, none⟩
+
+/-- does `np.asanyarray(self._dataobj, dtype=dt)` return the data object itself? -/
+def ImgSt.aliases (s : ImgSt) (dt : FD) : Bool := !s.proxy && s.arrFD == some dt
+
+/-- dataobj_images.py:373-376: cache miss — `data = np.asanyarray(self._dataobj, dtype=dtype)`;
+    `if caching == 'fill': self._fdata_cache = data`; the caller may then edit `data` -/
+def ImgSt.fresh (s : ImgSt) (dt : FD) (fill edit : Bool) : ImgSt :=
+  let al := s.aliases dt
+  { s with data := if edit && al then s.data.reverse else s.data,
+           cache := if fill then some ⟨dt, if edit then s.data.reverse else s.data, al⟩ else s.cache }
+
+/-- `a = img.get_fdata(dtype=dt, caching=...)` (dataobj_images.py:363-376), then optionally the edit -/
+def ImgSt.getFdata (s : ImgSt) (dt : FD) (fill edit : Bool) : ImgSt :=
+  match s.cache with
+  | some c =>
+    if c.dt = dt then          -- dataobj_images.py:367-369: the cache array itself is returned
+      if edit then { s with cache := some { c with vals := c.vals.reverse },
+                            data := if c.alias then s.data.reverse else s.data }
+      else s
+    else s.fresh dt fill edit
+  | none => s.fresh dt fill edit
+
+def ImgSt.step (s : ImgSt) : HStep → ImgSt
+  | .uncache => { s with cache := none }
+  | .getFdata dt fill edit => s.getFdata dt fill edit
+
+def ImgSt.run (s : ImgSt) (h : List HStep) : ImgSt := h.foldl ImgSt.step s
+
+/-- the voxel values an operation with gather `srcs` (source element number of every output voxel)
+    produces on an image in state `s`: read from the DATA OBJECT -/
+def ImgSt.values (s : ImgSt) (srcs : List Nat) : List Nat := srcs.map (fun k => s.data.getD k 0)
+
+/-- what the data object holds after a history, computed WITHOUT any cache bookkeeping: only an
+    edit of `get_fdata(dtype=dt)` on an array image whose array has dtype `dt` reaches the data -/
+def dataSpec (proxy : Bool) (arrFD : Option FD) : List HStep → List Nat → List Nat
+  | [], d => d
+  | .getFdata dt _ true :: r, d => dataSpec proxy arrFD r (if !proxy && arrFD == some dt then d.reverse else d)
+  | _ :: r, d => dataSpec proxy arrFD r d
+
+/-- cache bookkeeping invariant: a cache is flagged as the data object exactly when its dtype is the
+    array's own, and then its contents are the data object's -/
+def ImgSt.WF (s : ImgSt) : Prop :=
+  ∀ c, s.cache = some c → c.alias = s.aliases c.dt ∧ (c.alias = true → c.vals = s.data)
+
 /-- the 48 signed permutations of three axes -/
 def allOrnts3 : List Ornt :=
   [[0, 1, 2], [0, 2, 1], [1, 0, 2], [1, 2, 0], [2, 0, 1], [2, 1, 0]].flatMap (fun (p : List Nat) =>
